@@ -7,6 +7,13 @@ history that reaches a state (and any violation found there) is a shortest one.
 """
 
 
+class Built(tuple):
+    """what build() returns when the state key also needs something derived from the history (the reference model's
+    state): a tuple with an extra attribute.  Two histories may only be merged when the real states AND the expected
+    states agree - otherwise a no-op where an effect was due would be hidden by the deduplication."""
+    mkey = None
+
+
 class Search:
     def __init__(self, build, menu, canon, max_states=None):
         self.build = build          # build(hist) -> obj   (fresh object, history replayed; must be deterministic)
